@@ -327,6 +327,10 @@ func verifC06ConfCol(r *verifutil.Rand, name string) string {
 	n := r.Intn(5)
 	seen := map[string]bool{}
 	var out []string
+	if verifC06Force != "" {
+		seen[verifC06Force] = true
+		out = append(out, verifutil.HexS(verifC06Force)+":S:0")
+	}
 	for k := 0; k < n; k++ {
 		key := verifC06Keys[r.Intn(len(verifC06Keys))]
 		if k == 0 && r.Chance(1, 4) && strings.HasPrefix(name, "~") {
@@ -518,8 +522,19 @@ func verifC06PathsOp(r *verifutil.Rand) string {
 	return fmt.Sprintf("paths %s %s %s | %s", verifutil.HexS(verifC06Root), strings.Join(cc, ","), strings.Join(fh, ","), rxS)
 }
 
+// verifC06Force: a static key that must be part of the generated configuration (the name is a malformed
+// spelling of it: dot segments, trailing slash, doubled slashes that canonicalise to the key)
+var verifC06Force string
+
 func verifC06Gen(r *verifutil.Rand, i int, thorough bool) []string {
 	name := verifC06Name(r)
+	verifC06Force = ""
+	if r.Chance(1, 5) {
+		k := r.Pick("cam1", "live/a", "x.y")
+		verifC06Force = k
+		name = r.Pick("x/../"+k, "./"+k, k+"/", k+"/.", k+"/x/..", "a/b/../../"+k, k+"//", "/"+k, strings.Replace(k, "/", "//", 1),
+			strings.Replace(k, "/", "/./", 1), "./"+k+"/", k+"/..", "../"+k)
+	}
 	ops := []string{"reset"}
 	ops = append(ops, "valid "+verifutil.HexS(name))
 	ops = append(ops, "find "+verifutil.HexS(name)+" "+verifC06ConfCol(r, name))
